@@ -88,6 +88,9 @@ _WIRES_FRAME = ('writes_only_through("dsl_compiler/src/layout/connection_planner
                 '{"_create_relay_chain", "_restore_preserved_connection", "_add_self_feedback_connections"})')
 TABLE.update({
     "c08_preserved_wires_not_bridged.diff": ("guard", _WIRES_FRAME, None),
+    "c13_projection_folds_copy_decider.diff": ("contracts.c13", "_try_fold_projection_into_source", "0 variables"),
+    "c13_projection_folds_named_value.diff": ("contracts.c13", "_try_fold_projection_into_source", "1 variables"),
+    "../seeded/C13-2/patch.diff": ("contracts.c13", "_try_fold_projection_into_source", "0 variables"),
     "c08_preserved_shares_network_zero.diff": ("contracts.c12", "_restore_preserved_connection", None),
     "c08_preserved_routing_failure_ignored.diff": ("contracts.c12", "_restore_preserved_connection", None),
     "c08_preserved_span_doubled.diff": ("contracts.c12", "_restore_preserved_connection", None),
